@@ -70,7 +70,7 @@ pub fn pool() -> Vec<Template> {
         t("ld a,{x: u8}", "0x1a @ x", &[Typed('u', 8)]),
         // a parameter named like a global symbol (`k`), followed by a sub-rule operand whose own expression
         // may mention that global: the operand is written in the scope of the line, not of the rule
-        t("mw {k: u8}, {s: src}", "0x6 @ s @ k", &[Typed('u', 8), Src]),
+        t("mw {k: u8}, {s: src}", "0x6 @ s @ k @ 0x0", &[Typed('u', 8), Src]),
         // two sub-rule operands, the ambiguous one (literal `a` / expression) first
         t("mvs {s: src}, {d: reg}", "0xa @ d @ s", &[Src, Reg]),
         // a digit-led token inside the first literal characters of the mnemonic
@@ -83,7 +83,9 @@ pub fn src_def() -> RuleDefSrc {
     RuleDefSrc {
         name: Some("src".into()),
         sub: true,
-        rules: vec![RuleSrc::new("#{v: u8}", "0x1 @ v"), RuleSrc::new("{v: u8}", "0x2 @ v"), RuleSrc::new("({r: reg})", "0x3 @ 0x0 @ r"), RuleSrc::new("a", "0x4 @ 0x0000")],
+        // 16 bits each, the literal `a` 24 bits: with the 4+4 bits of the instructions that use them the total is a whole
+        // number of bytes (the label behind the line must stay aligned), and literal and expression reading differ in size
+        rules: vec![RuleSrc::new("#{v: u8}", "0x1 @ 0x0 @ v"), RuleSrc::new("{v: u8}", "0x2 @ 0x0 @ v"), RuleSrc::new("({r: reg})", "0x3 @ 0x00 @ r"), RuleSrc::new("a", "0x4 @ 0x00000")],
     }
 }
 
